@@ -445,6 +445,8 @@ class ExprMixin:
           raise Unsupported('spec index out of range')
         self.raise_('IndexError', VStr('index out of range'))
       if n == 0:
+        if self.spec_mode:       # (guarded) element of an empty list inside a specification: an undefined value
+          return VOpaque(z3.Const(self.path.fresh_name('undef'), Obj))
         self.raise_('IndexError', VStr('index out of range'))
       ni = self.norm_index(i, n)
       if not self.spec_mode and self.branch(z3.Or(ni < 0, ni >= n)):
